@@ -25,6 +25,10 @@ META = {
 }
 
 
+META['explanation'] += ' Rounds 4-5: ' + "R3 _popToLoop decided by constant propagation on every stack of open loops up to depth 4 x target type; Close reaches _popToLoop('ISA') on every path to its return. R5 Write decided per segment id x check_837_lx: bookkeeping first, trailers regenerated, ISA through _write_isa_segment, LX renumbered, anything else written once."
+META['technique'] += '; conditional constant propagation over the CFG on finite, complete input domains (DESIGN.md 10.4.1)'
+
+
 def _reader_pairs(ctx):
     """from the reader's trailer branches: trailer -> (header type, canonical count expression)"""
     rfn, rdr = c04._arms(ctx, 'X12Reader._parse_segment')
